@@ -44,6 +44,7 @@ type root struct {
 	notes      map[string]bool
 	lateGhost  map[string]bool
 	localAddrs []*Term
+	caseSplits []*Term // conditions to split every later obligation on (proof by cases)
 	localRanges [][2]*Term // typed backing arrays allocated by this activation (start, bytes)
 	knownRanges [][2]*Term // typed slices seen so far (backing array start, bytes): memory that exists before later allocations
 	localSizes []int64
@@ -128,6 +129,17 @@ func (r *FnRun) oblige(st *State, kind, detail string, goal *Term, pos token.Pos
 			}
 		}
 		h := append(append([]*Term{}, hyps...), pc.hyps...)
+		if len(r.root.caseSplits) > 0 {
+			// proof by cases on conditions recorded during execution (e.g. "append fits in place" / "append reallocates"):
+			// the two cases together cover everything, each is far easier for the solvers than the merged goal
+			c := r.root.caseSplits[0]
+			for k, cc := range []*Term{c, r.tb().Not(c)} {
+				hk := append(append([]*Term{}, h...), cc)
+				o := &Obligation{Name: fmt.Sprintf("%s|case%d", n, k), Func: r.e.relName(r.root.fn), Kind: kind, Hyps: hk, Goal: r.e.simplifyUnder(cc, pc.goal), Pos: r.e.pos(pos), Text: text, Tags: tags, Inputs: r.root.inputs, root: r.root}
+				r.root.obls = append(r.root.obls, o)
+			}
+			continue
+		}
 		o := &Obligation{Name: n, Func: r.e.relName(r.root.fn), Kind: kind, Hyps: h, Goal: pc.goal, Pos: r.e.pos(pos), Text: text, Tags: tags, Inputs: r.root.inputs, root: r.root}
 		r.root.obls = append(r.root.obls, o)
 	}
